@@ -74,15 +74,21 @@ class World:
         self.app = world.make_app(kind, scratch, runner_considered_dead_after_minutes=10.0)
         self.tasks = tasks_c20.bind_all(self.app)
         self.pm = pm
-        pm.all_pynenc_instances.clear()
-        pm.all_pynenc_instances[self.app.app_id] = self.app
-        pm.pynenc_instance = self.app
+        self.history: list = []
+        self.activate()
         self.ids: list[str] = []          # every invocation id ever created (model index = position)
         self.runners = ["r1", "r2"]
         self.n = 0
 
+    def activate(self):
+        pm = self.pm
+        pm.all_pynenc_instances.clear()
+        pm.all_pynenc_instances[self.app.app_id] = self.app
+        pm.pynenc_instance = self.app
+
     # ---------------------------------------------------------------- operations building a state
     def op(self, o):
+        self.history.append(list(o))
         from pynenc.identifiers.invocation_id import InvocationId
         from pynenc.invocation.status import InvocationStatus as S
         app = self.app
@@ -167,7 +173,7 @@ class World:
                 comps["blocking_control"] = bc
             for cname, comp in comps.items():
                 for attr, val in sorted(vars(comp).items()):
-                    if attr in MEM_SKIP or attr in MEM_SKIP_BY_COMP.get(cname, ()):
+                    if attr in MEM_SKIP or attr in MEM_SKIP_BY_COMP.get(cname, ()) or _not_state(val):
                         continue
                     c = canon(val)
                     if c in ({}, [], None) and not isinstance(val, (int, float, str, bool)):
@@ -191,9 +197,16 @@ class World:
 
 
 # attributes of the in-memory components that are not system state
-MEM_SKIP = {"app", "conf", "_lock", "locks", "_cron_lock", "_claim_lock", "_trigger_run_lock", "invocation_threads",
+MEM_SKIP = {"app", "conf", "_lock", "_logger", "locks", "_cron_lock", "_claim_lock", "_trigger_run_lock", "invocation_threads",
             "_runner_context_cache", "_blocking_control", "logger"}
 MEM_SKIP_BY_COMP: dict = {}
+
+
+def _not_state(val) -> bool:
+    import logging
+    import threading
+    return isinstance(val, (logging.Logger, logging.LoggerAdapter, type(threading.Lock()), type(threading.RLock()),
+                            threading.Event, threading.Thread)) or callable(val)
 
 
 def canon(v, depth: int = 0):
@@ -251,3 +264,594 @@ def diff_snap(a: dict, b: dict) -> dict:
 def _short(x, n=600):
     s = json.dumps(x, sort_keys=True, default=str)
     return s if len(s) <= n else s[:n] + "…"
+
+
+# =============================================================================== the monitor
+def live_routes(pm) -> list[tuple[str, str, str, str, object]]:
+    """(method, path, module, function, route object) for every route of the FastAPI app (recursing into
+    included routers, whatever the installed FastAPI version calls them)."""
+    out = []
+
+    def walk(routes, prefix=""):
+        for r in routes:
+            if hasattr(r, "original_router"):
+                p = getattr(getattr(r, "include_context", None), "prefix", "") or ""
+                walk(r.original_router.routes, prefix + p)
+            elif hasattr(r, "routes") and not hasattr(r, "endpoint") and hasattr(r, "path") and type(r).__name__ != "Mount":
+                walk(r.routes, prefix + getattr(r, "path", ""))
+            elif hasattr(r, "endpoint") and getattr(r, "methods", None):
+                for m in sorted(r.methods):
+                    if m != "HEAD":
+                        out.append((m, prefix + r.path, r.endpoint.__module__, r.endpoint.__name__, r))
+    walk(pm.app.routes)
+    seen, uniq = set(), []
+    for x in out:
+        if x[:4] not in seen:
+            seen.add(x[:4])
+            uniq.append(x)
+    return uniq
+
+
+_ROUTES_SET_UP = False
+
+
+def monitor():
+    global _ROUTES_SET_UP
+    with warnings.catch_warnings():
+        warnings.simplefilter("ignore")
+        import pynmon.app as pm
+        from fastapi.testclient import TestClient
+        if not _ROUTES_SET_UP:
+            pm.setup_routes()
+            _ROUTES_SET_UP = True
+        client = TestClient(pm.app, raise_server_exceptions=False)
+    return pm, client
+
+
+def query_names(route_obj, module_name: str) -> dict[str, str]:
+    """query parameter name -> 'int' | 'str' (signature of the handler + request.query_params.get literals)"""
+    import importlib
+    import inspect
+    names: dict[str, str] = {}
+    try:
+        sig = inspect.signature(route_obj.endpoint)
+        path_params = set(re.findall(r"{(\w+)", route_obj.path))
+        for n, p in sig.parameters.items():
+            if n in path_params or n == "request":
+                continue
+            ann = str(p.annotation)
+            names[n] = "int" if "int" in ann else "str"
+    except Exception:  # noqa: BLE001
+        pass
+    try:
+        src = inspect.getsource(importlib.import_module(module_name))
+        for n in re.findall(r"query_params\.get\(\s*[\"'](\w+)[\"']", src):
+            names.setdefault(n, "str")
+    except Exception:  # noqa: BLE001
+        pass
+    return names
+
+
+def gen_requests(rng, w: World, method_path, route_obj, module_name, per_route: int) -> list[str]:
+    """URLs for one route: existing / purged / ghost / malformed ids, small and large limits."""
+    path = method_path
+    ids_with = [i for i in w.ids if w.has_record(i)]
+    ids_without = [i for i in w.ids if not w.has_record(i)]
+    call_keys = []
+    for i in ids_with[:3]:
+        try:
+            call_keys.append(w.app.state_backend.get_invocation(i).call.call_id.key)
+        except Exception:  # noqa: BLE001
+            pass
+    pools = {
+        "invocation_id": ids_with[:3] + ids_without[:2] + ["no-such-invocation", "%00", "a" * 300, "..%2F..%2Fetc"],
+        "runner_id": ["r1", "r2", "no-such-runner", "%20"],
+        "app_id": [w.app.app_id, "no-such-app"],
+        "task_id_key": ["harness.tasks_c20.c20_ok", "harness.tasks_c20.c20_fail", "no.such.task", "nodots", "%7B%7D"],
+        "workflow_type_key": ["harness.tasks_c20.c20_ok", "no.such.task", "nodots"],
+        "call_id_key": call_keys + ["harness.tasks_c20.c20_ok:deadbeef", "garbage", "a:b:c"],
+    }
+    qn = query_names(route_obj, module_name)
+    qlen = len(w.queue())
+    urls = []
+    for k in range(per_route):
+        url = path
+        for name in re.findall(r"{(\w+)(?::\w+)?}", path):
+            pool = pools.get(name, ["x", "0", "%00"])
+            val = pool[k % len(pool)] if k < len(pool) else rng.choice(pool)
+            url = re.sub(r"{" + name + r"(?::\w+)?}", str(val), url)
+        q = []
+        for name, typ in sorted(qn.items()):
+            if k == 0 and name != "limit":
+                continue                     # first request: defaults
+            if name == "limit":
+                opts = [1, 2, max(qlen - 1, 0), qlen, qlen + 1, 1000, 0, -1, 3, "abc"]
+                val = opts[k % len(opts)] if k < len(opts) else rng.choice(opts)
+            elif typ == "int":
+                val = rng.choice([0, 1, 2, 5, 50, -1, 10**6, "x"])
+            elif name in pools:
+                val = rng.choice(pools[name])
+            elif "invocation" in name:
+                val = rng.choice(pools["invocation_id"])
+            elif "task" in name or "workflow" in name:
+                val = rng.choice(pools["task_id_key"])
+            elif "status" in name:
+                val = rng.choice(["SUCCESS", "FAILED", "REGISTERED", "bogus", ""])
+            elif "expand" in name:
+                val = ",".join(rng.sample(w.ids, min(2, len(w.ids)))) if w.ids else ""
+            else:
+                val = rng.choice(["", "1h", "15m", "zzz", "2020-01-01T00:00:00", "1"])
+            if rng.random() < 0.8 or name == "limit":
+                q.append(f"{name}={val}")
+        if q:
+            url += "?" + "&".join(q)
+        if url not in urls:
+            urls.append(url)
+    return urls
+
+
+def gen_ops(rng, n_ops: int, flavour: str) -> list:
+    """An operation history. flavours: 'plain' (nothing purged), 'long' (queue longer than the default page
+    limit), 'purged' (stores partially purged), 'mixed'."""
+    ops: list = [("heartbeat", "r1")]
+    if flavour == "long":
+        ops += [("call", rng.choice(["ok", "fail", "ok"])) for _ in range(rng.randint(22, 30))]
+    for _ in range(n_ops):
+        r = rng.random()
+        if r < 0.45:
+            ops.append(("call", rng.choice(["ok", "ok", "fail"])))
+        elif r < 0.60:
+            ops.append((rng.choice(["run", "run", "claim", "start"]), rng.choice(["r1", "r2"])))
+        elif r < 0.68:
+            ops.append(("heartbeat", rng.choice(["r1", "r2"])))
+        elif r < 0.74:
+            ops.append(("requeue", rng.randint(0, 50)))
+        elif r < 0.80 and flavour in ("purged", "mixed"):
+            ops.append(("ghost",))
+        elif r < 0.90 and flavour in ("purged", "mixed"):
+            ops.append(("drop_record", rng.randint(0, 50)))
+        elif r < 0.93 and flavour == "purged":
+            ops.append(("purge", rng.choice(["state_backend", "orchestrator"])))
+        else:
+            ops.append(("call", "ok"))
+    ops += [("call", "ok"), ("call", "fail")]
+    if flavour in ("purged", "mixed"):
+        ops.append(("drop_record", rng.randint(0, 50)))
+    return ops
+
+
+# =============================================================================== model side
+def coq_list(xs) -> str:
+    return "[" + "; ".join(str(int(x)) for x in xs) + "]"
+
+
+def model_queue_view(ctx: Ctx, cases: list[tuple[int, list[int], list[int]]]):
+    """cases: (limit, queue as indices, indices with a stored record) -> [(queue after, ok)]"""
+    exprs = [f"qv_obs gen_qv ({lim})%Z {coq_list(q)} {coq_list(r)}" for lim, q, r in cases]
+    vals = ctx.coq_eval(IMPORTS, exprs, chunk=200)
+    return [(list(v[0]), int(v[1])) for v in vals]
+
+
+# =============================================================================== requests + oracle
+def classify_queue_change(before: list, after: list) -> str:
+    if sorted(before) == sorted(after):
+        return "queue-reordered"
+    lost = [x for x in set(before) if before.count(x) > after.count(x)]
+    return "queue-lost" if lost else "queue-changed"
+
+
+def request_and_judge(ctx: Ctx, w: World, client, method_path: str, url: str, stats: dict, replay_base: dict,
+                      qv_cases: list | None):
+    before = w.snapshot()
+    with warnings.catch_warnings():
+        warnings.simplefilter("ignore")
+        resp = client.get(url, follow_redirects=False)
+    after = w.snapshot()
+    code = resp.status_code
+    stats["status_codes"][str(code)] = stats["status_codes"].get(str(code), 0) + 1
+    d = diff_snap(before, after)
+    is_queue_route = method_path == "/broker/queue"
+    if is_queue_route and qv_cases is not None and code in (200, 500):
+        m = re.search(r"limit=(-?\d+)", url)
+        lim = int(m.group(1)) if m else 20
+        idx = {i: k for k, i in enumerate(w.ids)}
+        qb = [idx[i] for i in before["queue"]]
+        qa = [idx[i] for i in after["queue"]]
+        recs = sorted({idx[i] for i in set(before["queue"]) if w.has_record(i)})
+        qv_cases.append({"limit": lim, "queue": qb, "records": recs, "impl_after": qa, "impl_ok": 1 if code == 200 else 0,
+                         "backend": w.kind, "url": url})
+    if not d:
+        return True
+    changed = sorted(d)
+    if is_queue_route and changed == ["queue"]:
+        m = re.search(r"limit=(-?\d+)", url)
+        lim = int(m.group(1)) if m else 20
+        qb = before["queue"]
+        touched = qb[:max(0, min(lim, len(qb)))]
+        if any(not w.has_record(i) for i in touched):
+            cls = "queued-id-without-record"
+        elif 0 <= lim < len(qb):
+            cls = "queue-longer-than-limit"
+        else:
+            cls = "records-present-and-limit-covers-queue"
+        key = f"GET{method_path}:{classify_queue_change(qb, after['queue'])}:{cls}"
+        idx = {i: k for k, i in enumerate(w.ids)}
+        what = (f"GET {url} ({w.kind}, HTTP {code}) changed the broker queue: before {[idx[i] for i in qb]} "
+                f"after {[idx[i] for i in after['queue']]} (ids numbered in creation order)")
+    else:
+        key = f"GET{method_path}:changed:{','.join(changed)}"
+        what = f"GET {url} ({w.kind}, HTTP {code}) changed {changed}: {json.dumps(d)[:700]}"
+    stats["changed"][key] = stats["changed"].get(key, 0) + 1
+    ctx.violation(key, what, dict(replay_base, url=url, method_path=method_path, diff=d, http_status=code))
+    return False
+
+
+# =============================================================================== API-level correspondence
+def api_recipes(w: World):
+    """constructor -> callable performing the real call(s) (iterators consumed).  Only read-only classified
+    constructors; every one is executed with existing, purged and unknown ids."""
+    from datetime import UTC, datetime, timedelta
+    from pynenc.identifiers.invocation_id import InvocationId
+    from pynenc.invocation.status import InvocationStatus as S
+    app = w.app
+    o, sb, br, tr = app.orchestrator, app.state_backend, app.broker, app.trigger
+    ids = (w.ids[:3] + w.ids[-2:] + [InvocationId("unknown-id")]) if w.ids else [InvocationId("unknown-id")]
+    tasks = list(w.tasks.values())
+    t0, t1 = datetime.now(UTC) - timedelta(days=1), datetime.now(UTC) + timedelta(days=1)
+
+    def each(f, xs):
+        def run():
+            outs = []
+            for x in xs:
+                try:
+                    v = f(x)
+                    if hasattr(v, "__iter__") and not isinstance(v, (str, bytes, dict, list, tuple, set)):
+                        v = list(v)
+                    outs.append("ok")
+                except Exception as ex:  # noqa: BLE001 - a raising read is still a read
+                    outs.append(type(ex).__name__)
+            return outs
+        return run
+
+    def call_ids():
+        out = []
+        for i in ids:
+            try:
+                out.append(sb.get_invocation(i).call.call_id)
+            except Exception:  # noqa: BLE001
+                pass
+        return out
+
+    def loaded():
+        out = []
+        for i in ids:
+            try:
+                out.append(sb.get_invocation(i))
+            except Exception:  # noqa: BLE001
+                pass
+        return out
+
+    rec = {
+        "ABrokerCount": each(lambda _: br.count_invocations(), [0]),
+        "AOrchExisting": each(lambda t: o.get_existing_invocations(task=t, statuses=list(S)), tasks),
+        "AOrchBlocking": each(lambda n: o.get_blocking_invocations(n), [0, 1, 10]),
+        "AOrchActiveRunners": each(lambda f: o.get_active_runners(f), [None, True, False]),
+        "AOrchCount": each(lambda st: o.count_invocations(statuses=st), [None, [S.SUCCESS], [S.REGISTERED, S.PENDING]]),
+        "AOrchIdsPaginated": each(lambda a: o.get_invocation_ids_paginated(limit=a[0], offset=a[1]), [(2, 0), (100, 1), (1, 50)]),
+        "AOrchTaskIds": each(lambda t: o.get_task_invocation_ids(t.task_id), tasks),
+        "AOrchCallIds": each(lambda c: o.get_call_invocation_ids(c), call_ids()),
+        "AOrchStatus": each(lambda i: o.get_invocation_status(i), ids),
+        "AOrchStatusRecord": each(lambda i: o.get_invocation_status_record(i), ids),
+        "AOrchRetries": each(lambda i: o.get_invocation_retries(i), ids),
+        "AOrchFilter": each(lambda _: (list(o.filter_by_status(ids, frozenset({S.SUCCESS, S.REGISTERED}))), list(o.filter_final(ids))), [0]),
+        "AOrchRecoveryScan": each(lambda k: list(o.get_pending_invocations_for_recovery()) if k else list(o.get_running_invocations_for_recovery()), [0, 1]),
+        "ASbInvocation": each(lambda i: sb.get_invocation(i), ids),
+        "ASbResult": each(lambda i: sb.get_result(i), ids),
+        "ASbException": each(lambda i: sb.get_exception(i), ids),
+        "ASbHistory": each(lambda i: sb.get_history(i), ids),
+        "ASbWorkflowTypes": each(lambda _: sb.get_all_workflow_types(), [0]),
+        "ASbWorkflowRuns": each(lambda t: sb.get_workflow_runs(t.task_id), tasks),
+        "ASbAllWorkflowRuns": each(lambda _: sb.get_all_workflow_runs(), [0]),
+        "ASbIdsByWorkflow": each(lambda i: sb.get_invocation_ids_by_workflow(workflow_id=i), ids),
+        "ASbIterHistory": each(lambda _: [b for b in sb.iter_history_in_timerange(t0, t1)], [0]),
+        "ASbIterInvocations": each(lambda _: [b for b in sb.iter_invocations_in_timerange(t0, t1)], [0]),
+        "ASbRunnerContext": each(lambda r: sb.get_runner_context(r), ["r1", "r2", "nope"]),
+        "ASbRunnerContexts": each(lambda rs: sb.get_runner_contexts(rs), [["r1", "r2"], ["nope"], []]),
+        "ASbMatchingRunnerContexts": each(lambda p: sb.get_matching_runner_contexts(p), ["r", "zz"]),
+        "ASbChildren": each(lambda i: sb.get_child_invocations(i), ids),
+        "ASbWorkflowSubs": each(lambda i: sb.get_workflow_sub_invocations(i), ids),
+        "ASbWorkflowData": each(lambda i: sb.get_workflow_data(getattr(i, "workflow", i), "k", None), loaded()[:2]),
+        "ATrigRead": each(lambda t: (tr.get_conditions_sourced_from_task(t.task_id), tr.get_valid_conditions()), tasks),
+        "AAppTasks": each(lambda _: list(app.tasks.values()), [0]),
+        "AAppGetTask": each(lambda t: app.get_task(t.task_id), tasks),
+        "ACallData": each(lambda inv: (inv.call.arguments.kwargs, inv.call.serialized_arguments, inv.task), loaded()),
+        "AMeta": each(lambda c: (c.conf, c.__class__.__name__), [br, o, sb, tr, app.client_data_store, app.runner]),
+    }
+    if hasattr(br, "peek_invocations"):
+        rec["ABrokerPeek"] = each(lambda n: br.peek_invocations(n), [-1, 0, 1, 2, 1000])
+    return rec
+
+
+def run_api_level(ctx: Ctx, w: World, reached: set[str], stats: dict):
+    recs = api_recipes(w)
+    n = 0
+    for ctor, fn in sorted(recs.items()):
+        before = w.snapshot()
+        outs = fn()
+        after = w.snapshot()
+        n += max(1, len(outs))
+        stats["api_calls"][ctor] = stats["api_calls"].get(ctor, 0) + len(outs)
+        for o_ in outs:
+            stats["api_outcomes"][o_] = stats["api_outcomes"].get(o_, 0) + 1
+        d = diff_snap(before, after)
+        if d:
+            key = f"api:{ctor}:changed:{','.join(sorted(d))}"
+            what = (f"{w.kind}: the API method(s) modelled as read-only {ctor} changed {sorted(d)}: {json.dumps(d)[:500]}"
+                    + ("" if ctor in reached else "  [not reached by any GET route today]"))
+            if ctor in reached:
+                ctx.violation(key, what, {"kind": "api", "backend": w.kind, "ctor": ctor, "ops": w.history, "diff": d})
+            else:
+                ctx.notes.setdefault("unreached_read_api_that_mutates", []).append(what)
+    return n
+
+
+def run_broker_sequences(ctx: Ctx, scratch: str, n_seq: int, stats: dict):
+    """count / retrieve / route / peek / record lookup on the real brokers against `prim`."""
+    from pynenc.identifiers.invocation_id import InvocationId
+    rng = ctx.rng
+    seqs = []
+    for _ in range(n_seq):
+        seq = []
+        for _ in range(rng.randint(3, 14)):
+            r = rng.random()
+            if r < 0.4:
+                seq.append(("route", rng.randint(0, 5)))
+            elif r < 0.7:
+                seq.append(("retrieve", 0))
+            elif r < 0.85:
+                seq.append(("count", 0))
+            else:
+                seq.append(("peek", rng.randint(0, 4)))
+        seqs.append(seq)
+    ctor = {"route": "ABrokerRoute", "retrieve": "ABrokerRetrieve", "count": "ABrokerCount", "peek": "ABrokerPeek"}
+    render = ("(fun cs => let step := fun (acc : sys * list (list nat)) c => let (s, outs) := acc in let (s', o) := prim s c in "
+              "(s', outs ++ [match o with OUnit => [0] | ONone => [1] | ONum n => [2; n] | OIds l => 3 :: l | ORaise => [4] end]) in "
+              "let r := fold_left step cs (mk_qsys [] [], []) in (queue (fst r), snd r))")
+    exprs = [render + " [" + "; ".join(f"mkCall {ctor[k]} {a} []" for k, a in seq) + "]" for seq in seqs]
+    vals = ctx.coq_eval(IMPORTS, exprs, chunk=150)
+    n = 0
+    for kind in ("mem", "sqlite"):
+        w = World(kind, scratch)
+        has_peek = hasattr(w.app.broker, "peek_invocations")
+        ids = [InvocationId(f"m{k}") for k in range(6)]
+        for seq, (mq, mouts) in zip(seqs, vals):
+            w.app.broker.purge()
+            outs = []
+            for k, a in seq:
+                br = w.app.broker
+                if k == "route":
+                    br.route_invocation(ids[a])
+                    outs.append([0])
+                elif k == "retrieve":
+                    v = br.retrieve_invocation()
+                    outs.append([1] if v is None else [2, ids.index(v)])
+                elif k == "count":
+                    outs.append([2, br.count_invocations()])
+                elif has_peek:
+                    outs.append([3] + [ids.index(v) for v in br.peek_invocations(a)])
+                else:
+                    outs.append(None)
+            q = [ids.index(InvocationId(x)) for x in w.queue()]
+            n += 1
+            mo = [list(m) if o is not None else None for m, o in zip(mouts, outs)]
+            if q != list(mq) or outs != mo:
+                ctx.violation(f"broker-model-mismatch:{kind}",
+                              f"{kind}: broker op sequence differs from the model: impl queue={q} outs={outs}; model queue={list(mq)} outs={mo}",
+                              {"kind": "broker_seq", "backend": kind, "seq": seq, "impl": [q, outs], "model": [list(mq), mo]})
+        stats["broker_sequences"] = stats.get("broker_sequences", 0) + len(seqs)
+    return n
+
+
+# =============================================================================== main
+WITNESSES = [
+    # (name, ops, url)  — the two Coq witnesses of Proofs/MonitorProofs.v on the implementation
+    ("witness_long", [("call", "ok"), ("call", "ok"), ("call", "ok")], "/broker/queue?limit=2"),
+    ("witness_purged", [("call", "ok"), ("call", "ok"), ("call", "ok"), ("drop_record", 1)], "/broker/queue?limit=5"),
+]
+
+
+def build_world(kind: str, scratch: str, ops: list) -> World:
+    w = World(kind, scratch)
+    for o in ops:
+        w.op(tuple(o))
+    w.settle()
+    return w
+
+
+def main(ctx: Ctx) -> int:
+    world.quiet()
+    info = ctx.translate("routes", routes_tr.translate, "gen/Routes_gen.v")
+    ctx.prove("Props/C20.v")
+    stats: dict = {"status_codes": {}, "changed": {}, "api_calls": {}, "api_outcomes": {}, "requests_per_route": {},
+                   "flavours": {}, "queue_lengths": {}}
+    pm, client = monitor()
+    live = [r for r in live_routes(pm) if r[2].startswith("pynmon")]
+    live_get = [r for r in live if r[0] == "GET"]
+    # ---- (1) generated table against the live route table
+    if not info.get("degraded"):
+        gen_tab = sorted((m, p, mod, fn.split(".")[-1]) for m, p, mod, fn in info["route_table"])
+        live_tab = sorted(r[:4] for r in live)
+        ctx.notes["route_table"] = {"generated": len(gen_tab), "live": len(live_tab), "equal": gen_tab == live_tab,
+                                    "only_generated": [list(x) for x in gen_tab if x not in live_tab],
+                                    "only_live": [list(x) for x in live_tab if x not in gen_tab]}
+        if gen_tab != live_tab:
+            ctx.log("generated route table differs from FastAPI's live table (the read-out of the live routes decides):",
+                    ctx.notes["route_table"]["only_generated"], ctx.notes["route_table"]["only_live"])
+    mvals = ctx.coq_eval(IMPORTS, ["(qv_shape_code gen_qv, [if qv_restoring gen_qv then 1 else 0; if routes_ok gen_routes then 1 else 0; List.length gen_routes])",
+                                   "(map (fun r => List.length (filter (fun a => negb (read_only a)) (r_reach r))) gen_routes, [0])"])
+    shape_code, (restoring, table_ok, n_gen) = mvals[0][0], mvals[0][1]
+    ctx.notes["model"] = {"queue_view_shape": info.get("queue_view_shape", "(default)"), "shape_code": shape_code,
+                          "qv_restoring": bool(restoring), "routes_ok": bool(table_ok), "generated_get_routes": n_gen,
+                          "non_read_methods_per_route": mvals[1][0]}
+    reached = set(info.get("api_methods_reached_by_get") or [])
+    if not reached:      # degraded translator: take the default table's set
+        reached = set(re.findall(r"\b(A[A-Z][A-Za-z]+)\b", open(os.path.join(os.path.dirname(os.path.dirname(os.path.dirname(
+            os.path.abspath(__file__)))), "coq", "gen_default", "Routes_gen.v")).read()))
+    scratch = world.scratch_dir()
+    n_eval = 0
+    distinct = set()
+    qv_cases: list = []
+    try:
+        # ---- (2) the two computed witnesses, replayed on both backends (deterministic reproduction of the findings)
+        for kind in ("mem", "sqlite"):
+            for name, ops, url in WITNESSES:
+                w = build_world(kind, scratch, ops)
+                w.activate()
+                ok = request_and_judge(ctx, w, client, "/broker/queue", url, stats,
+                                       {"kind": "route", "backend": kind, "ops": w.history}, qv_cases)
+                n_eval += 1
+                distinct.add((kind, name))
+                stats.setdefault("witnesses", {})[f"{kind}:{name}"] = "unchanged" if ok else "changed"
+        # ---- (3) API level
+        n_eval += run_broker_sequences(ctx, scratch, 120 if ctx.thorough else 30, stats)
+        n_states = 10 if ctx.thorough else 3
+        flavours = ["long", "purged", "mixed", "plain"]
+        per_route = 10 if ctx.thorough else 4
+        for si in range(n_states):
+            flavour = flavours[si % len(flavours)]
+            ops = gen_ops(ctx.rng, ctx.rng.randint(10, 40 if ctx.thorough else 25), flavour)
+            for kind in ("mem", "sqlite"):
+                w = build_world(kind, scratch, ops)
+                w.activate()
+                stats["flavours"][flavour] = stats["flavours"].get(flavour, 0) + 1
+                ql = len(w.queue())
+                stats["queue_lengths"][str(ql)] = stats["queue_lengths"].get(str(ql), 0) + 1
+                n_eval += run_api_level(ctx, w, reached, stats)
+                # ---- (4) every live GET route
+                for (m, path, mod, fn, robj) in live_get:
+                    urls = gen_requests(ctx.rng, w, path, robj, mod, per_route + (6 if path == "/broker/queue" else 0))
+                    for url in urls:
+                        request_and_judge(ctx, w, client, path, url, stats,
+                                          {"kind": "route", "backend": kind, "ops": w.history}, qv_cases)
+                        n_eval += 1
+                        distinct.add((kind, path, url.split("?")[0] == path, url))
+                        stats["requests_per_route"][path] = stats["requests_per_route"].get(path, 0) + 1
+                if len(ctx.coverage["samples"]) < 4:
+                    ctx.sample({"backend": kind, "flavour": flavour, "ops": ops[:10], "queue_len": ql, "ids": len(w.ids)})
+        # ---- (5) the model's prediction for every queue-view request that ran
+        preds = model_queue_view(ctx, [(c["limit"], c["queue"], c["records"]) for c in qv_cases])
+        mism = 0
+        for c, (mq, mok) in zip(qv_cases, preds):
+            n_eval += 1
+            if mq != c["impl_after"] or mok != c["impl_ok"]:
+                mism += 1
+                detail = (f"{c['backend']}: GET {c['url']} queue {c['queue']} records {c['records']}: implementation -> "
+                          f"{c['impl_after']} (rendered={c['impl_ok']}), model of queue_view -> {mq} (rendered={mok})")
+                if info.get("degraded"):
+                    ctx.notes.setdefault("queue_view_model_mismatch_translator_degraded", []).append(detail)
+                else:
+                    ctx.violation("queue-view:model-mismatch", detail,
+                                  {"kind": "qv_model", **c, "model_after": mq, "model_ok": mok})
+        stats["queue_view_cases"] = {"compared_with_model": len(qv_cases), "mismatches": mism,
+                                     "impl_changed": sum(1 for c in qv_cases if c["queue"] != c["impl_after"]),
+                                     "impl_failed": sum(1 for c in qv_cases if not c["impl_ok"])}
+        if len(qv_cases) and len(ctx.coverage["samples"]) < 6:
+            ch = [c for c in qv_cases if c["queue"] != c["impl_after"]][:1] or qv_cases[:1]
+            ctx.sample({"queue_view": {k: ch[0][k] for k in ("backend", "url", "queue", "records", "impl_after", "impl_ok")}})
+        # a restoring verdict of the proof and a changed queue on the implementation contradict each other
+        if restoring and not info.get("degraded") and stats["queue_view_cases"]["impl_changed"]:
+            ctx.notes["proof_says_restoring_but_impl_changed"] = True
+        if ctx.thorough:
+            stats["translator_self_test"] = translator_self_test(scratch)
+    finally:
+        world.rm_scratch(scratch)
+    ctx.count(n_eval, len(distinct))
+    ctx.notes["distribution"] = stats
+    ctx.notes["live_get_routes"] = len(live_get)
+    ctx.assumptions += [
+        "a handler is modelled as an arbitrary interaction tree over the API methods its route can reach through pynmon's own "
+        "call graph (translator); code of domain objects reached outside that graph (LazyCall deserialisation, status property) "
+        "is covered by the before/after read-out only",
+        "API semantics in Model/Monitor.v are abstractions (what is returned is coarse); what is tied to the code is: read-only "
+        "classified methods leave the full read-out unchanged on both backends; broker count/retrieve/route/peek agree with prim",
+        "sequential requests (no concurrent runner while a page is served)",
+        "read-out: internal containers of the in-memory components (locks, loggers, caches of runner contexts excluded; empty "
+        "default entries ignored) / every table of the SQLite file (queue table projected to the id order)",
+    ]
+    ctx.trusted += ["AST translator harness/translate/routes.py (route table cross-checked against FastAPI's live table on every run)",
+                    "Starlette TestClient as the HTTP front end"]
+    return ctx.finish(
+        rule="every live GET route x generated states (flavours long/purged/mixed/plain, both backends) x generated path/query "
+             "parameters (existing, record-purged, unknown, malformed ids; limits around the queue length); + every read-only "
+             "classified API method on every state; + broker op sequences vs prim; + every queue-view request vs qv_run gen_qv. "
+             "distinct_nontrivial = distinct (backend, url) requests")
+
+
+def translator_self_test(scratch: str) -> dict:
+    """thorough tier: seeded edits of a scratch copy of pynmon must flip the generated facts."""
+    import shutil
+    out = {}
+    from harness.common import REPO
+    muts = {
+        "get_view_purges": ("pynmon/views/broker.py", '        "pending_count": app.broker.count_invocations(),\n    }\n\n    return templates.TemplateResponse(\n        request,\n        "broker/overview.html"',
+                            '        "pending_count": app.broker.count_invocations(),\n    }\n    app.broker.purge()\n\n    return templates.TemplateResponse(\n        request,\n        "broker/overview.html"'),
+        "queue_view_without_reroute": ("pynmon/views/broker.py", "        app.broker.route_invocation(invocation.invocation_id)\n", "        pass\n"),
+        "dynamic_dispatch": ("pynmon/views/home.py", "    broker_pending = active_app.broker.count_invocations()\n",
+                             "    broker_pending = getattr(active_app.broker, request.query_params.get('m', 'count_invocations'))()\n"),
+    }
+    for name, (rel, old, new) in muts.items():
+        d = os.path.join(scratch, "selftest_" + name)
+        os.makedirs(d)
+        shutil.copytree(os.path.join(REPO, "pynmon"), os.path.join(d, "pynmon"))
+        shutil.copytree(os.path.join(REPO, "pynenc"), os.path.join(d, "pynenc"), ignore=shutil.ignore_patterns("__pycache__"))
+        p = os.path.join(d, rel)
+        src = open(p).read()
+        if old not in src:
+            out[name] = "source text not found (tree differs from the seeded one)"
+            continue
+        open(p, "w").write(src.replace(old, new, 1))
+        try:
+            text, _ = routes_tr.translate(d)
+            base, _ = routes_tr.translate(REPO)
+            out[name] = "detected" if text != base else "NOT DETECTED"
+        except Exception as ex:  # noqa: BLE001
+            out[name] = f"fails closed ({type(ex).__name__})"
+    return out
+
+
+def replay(ctx: Ctx, path: str) -> int:
+    world.quiet()
+    rp = json.load(open(path))["replay"]
+    scratch = world.scratch_dir()
+    try:
+        if rp["kind"] in ("route", "qv_model"):
+            pm, client = monitor()
+            kind = rp["backend"]
+            if rp["kind"] == "qv_model":
+                print("model vs implementation of queue_view:", json.dumps(rp, default=str)[:1500])
+                return 0
+            w = build_world(kind, scratch, rp["ops"])
+            w.activate()
+            before = w.snapshot()
+            with warnings.catch_warnings():
+                warnings.simplefilter("ignore")
+                r = client.get(rp["url"], follow_redirects=False)
+            after = w.snapshot()
+            idx = {i: k for k, i in enumerate(w.ids)}
+            print("backend", kind, "GET", rp["url"], "-> HTTP", r.status_code)
+            print("queue before", [idx[i] for i in before["queue"]])
+            print("queue after ", [idx[i] for i in after["queue"]])
+            d = diff_snap(before, after)
+            print("changed:", json.dumps(d, indent=1)[:3000] if d else "nothing (system exactly as it was)")
+            return 1 if d else 0
+        if rp["kind"] == "api":
+            w = build_world(rp["backend"], scratch, rp["ops"])
+            before = w.snapshot()
+            outs = api_recipes(w)[rp["ctor"]]()
+            d = diff_snap(before, w.snapshot())
+            print(rp["ctor"], outs, "changed:", json.dumps(d)[:2000] if d else "nothing")
+            return 1 if d else 0
+        print(json.dumps(rp, indent=1, default=str)[:3000])
+    finally:
+        world.rm_scratch(scratch)
+    return 0
